@@ -31,6 +31,7 @@ import random
 import re
 import shutil
 import tempfile
+import zlib
 
 from vlib import refhttp as R
 from vlib import refcookie as RC
@@ -86,7 +87,8 @@ DEFAULT_PORT = {"http": 80, "https": 443}
 STATUSES = [301, 302, 303, 307, 308]
 REASON = {200: "OK", 301: "Moved Permanently", 302: "Found", 303: "See Other", 307: "Temporary Redirect", 308: "Permanent Redirect"}
 METHODS = ["GET", "HEAD", "POST", "PUT", "DELETE", "PATCH"]
-BODY_KINDS = ["none", "bytes", "bytes-clhdr", "str", "form", "form-multipart", "bytesio", "asyncgen", "file", "unseekable"]
+BODY_KINDS = ["none", "bytes", "bytes-clhdr", "str", "form", "form-multipart", "bytesio", "asyncgen", "file", "unseekable", "bytesio-offset", "file-offset"]
+SKIPPED_PREFIX = b"PREFIX-THE-CALLER-ALREADY-CONSUMED:" + b"#" * 29  # file-like bodies handed over at a non-zero position
 NOT_REPLAYABLE = {"asyncgen", "unseekable"}
 MAXR = [1, 2, 3, 10]
 GENERIC_CT = "application/octet-stream"  # what aiohttp documents as the default type of bytes-like / empty payloads
@@ -424,7 +426,7 @@ _TMP = {"dir": None}
 def _tmpfile(data):
     if _TMP["dir"] is None:
         _TMP["dir"] = tempfile.mkdtemp(prefix="c17_")
-    p = os.path.join(_TMP["dir"], "body.bin")
+    p = os.path.join(_TMP["dir"], "body-%d-%08x.bin" % (len(data), zlib.crc32(data)))
     if not os.path.exists(p):
         with open(p, "wb") as f:
             f.write(data)
@@ -509,6 +511,15 @@ def run_case(case, rec):
             return fd
         if kind == "bytesio":
             return io.BytesIO(known)
+        if kind == "bytesio-offset":
+            b = io.BytesIO(SKIPPED_PREFIX + known)
+            b.seek(len(SKIPPED_PREFIX))
+            return b
+        if kind == "file-offset":
+            f = open(_tmpfile(SKIPPED_PREFIX + known), "rb")
+            f.seek(len(SKIPPED_PREFIX))
+            opened.append(f)
+            return f
         if kind == "asyncgen":
 
             async def gen():
